@@ -4,14 +4,22 @@
     init <rootid> <rootbits>                                   -> ok
     deliver <dump:0|1> <id> <parent> <bits> <ntx> <tx>*        -> <outcome> <tip> <#outs> <Σvalue> <dump|->
         <tx> = <txid> <scriptsOk:0|1> <nin> (<txid> <vout>)* <nout> (<value> <script>)*
-        outcome = ok | dup | later | toodeep | err:<kind> | movefailed | panic:<what>
+        outcome = ok | dup | later | toodeep | err:<kind> | movefailed | panic:<what> | index-collision | detached
+                  (header and data at once: CheckBlock + AcceptBlock)
+    header <dump:0|1> <id> <parent> <bits>                     -> <outcome> <tip> <#outs> <Σvalue> <dump|->
+                  (the header alone: PreCheckBlock + AcceptHeader; outcome = ok | dup | later | toodeep | index-collision)
+    commit <dump:0|1> <id> <parent> <bits> <ntx> <tx>*         -> <outcome> <tip> <#outs> <Σvalue> <dump|->
+                  (the data of a block whose header is known: HasAllParents + CommitBlock(bl, node);
+                   outcome = the deliver ones | noheader | notlinking | discarded)
+    limbo                                                      -> <n>       (entries of BlockIndex unreachable from the root)
         dump = comma separated  txid:vout:value:height:cb:script  (unsorted)
     idle                                                       -> ok        (Idle/save: no observable change)
     undolast                                                   -> ok <tip> <#outs> <Σvalue> <dump>   (Chain.UndoLastBlock)
     state                                                      -> <tip> <#outs> <Σvalue> <dump>
     work <bits>                                                -> <num> <den>
     morepow <id1> <id2>                                        -> 0|1|none
-    farthest                                                   -> <id>
+    farthest                                                   -> <id>      (FindFarthestNode: header-only leaves count)
+    farthestdata                                               -> <id>      (findFarthestWithData: the fall-back's target)
     undochk                                                    -> ok <n> | bad <height> | vcbad <n>
                                                                   (undo file of every active height within the window is present;
                                                                    every connected block's changes satisfied `validChangesB`, the
@@ -99,10 +107,28 @@ def step (c : Chain) (toks : List String) : Chain × String :=
     | some id, some par, some bits, some ntx =>
       match takeTxs ntx rest with
       | some (txs, []) =>
-        let (c', o) := deliverIdx c { id := id, parent := par, bits := bits, txs := txs }
+        let (c', o) := stepIdx c (.block { id := id, parent := par, bits := bits, txs := txs })
         (c', s!"{o.name} {summary c' (d == "1")}")
       | _ => bad
     | _, _, _, _ => bad
+  | "commit" :: d :: id :: par :: bits :: ntx :: rest =>
+    if d != "0" && d != "1" then bad else
+    match hexNat id, hexNat par, bits.toNat?, ntx.toNat? with
+    | some id, some par, some bits, some ntx =>
+      match takeTxs ntx rest with
+      | some (txs, []) =>
+        let (c', o) := stepIdx c (.commit { id := id, parent := par, bits := bits, txs := txs })
+        (c', s!"{o.name} {summary c' (d == "1")}")
+      | _ => bad
+    | _, _, _, _ => bad
+  | ["header", d, id, par, bits] =>
+    if d != "0" && d != "1" then bad else
+    match hexNat id, hexNat par, bits.toNat? with
+    | some id, some par, some bits =>
+      let (c', o) := stepIdx c (.header { id := id, parent := par, bits := bits, txs := [] })
+      (c', s!"{o.name} {summary c' (d == "1")}")
+    | _, _, _ => bad
+  | ["limbo"] => (c, toString c.limbo.length)
   | ["idle"] => (c, "ok")
   | ["undolast"] =>
     match undoLast c with
@@ -123,6 +149,10 @@ def step (c : Chain) (toks : List String) : Chain × String :=
   | ["farthest"] =>
     match getNode c c.root with
     | some r => (c, natHex64 (farthest c (c.nodes.length + 1) r).1)
+    | none => (c, "none")
+  | ["farthestdata"] =>
+    match getNode c c.root with
+    | some r => (c, natHex64 (farthestS c (c.nodes.length + 1) r).1)
     | none => (c, "none")
   | ["undochk"] => (c, undoChk c)
   | _ => bad
